@@ -16,7 +16,9 @@ import (
 
 type rowConst struct {
 	idx  ssa.Value // the row index value
-	vals []int64   // value per row
+	vals []int64   // value per row (integers; booleans as 0/1)
+	strs []string  // value per row (strings)
+	str  bool
 }
 
 func (a *Analysis) rowConstOf(v ssa.Value) *rowConst {
@@ -27,7 +29,8 @@ func (a *Analysis) rowConstOf(v ssa.Value) *rowConst {
 		return rc
 	}
 	a.rowMemo[v] = nil
-	if !isIntT(v.Type()) {
+	isStr := isStringT(v.Type())
+	if !isIntT(v.Type()) && !isBoolT(v.Type()) && !isStr {
 		return nil
 	}
 	switch v.(type) {
@@ -42,13 +45,31 @@ func (a *Analysis) rowConstOf(v ssa.Value) *rowConst {
 	if !ok || len(col) == 0 || len(col) > 16 {
 		return nil
 	}
-	rc := &rowConst{idx: idx}
+	rc := &rowConst{idx: idx, str: isStr}
 	for _, c := range col {
-		k, isInt := c.(int64)
-		if !isInt {
+		switch x := c.(type) {
+		case int64:
+			if isStr {
+				return nil
+			}
+			rc.vals = append(rc.vals, x)
+		case bool:
+			if isStr {
+				return nil
+			}
+			if x {
+				rc.vals = append(rc.vals, 1)
+			} else {
+				rc.vals = append(rc.vals, 0)
+			}
+		case string:
+			if !isStr {
+				return nil
+			}
+			rc.strs = append(rc.strs, x)
+		default:
 			return nil
 		}
-		rc.vals = append(rc.vals, k)
 	}
 	a.rowMemo[v] = rc
 	return rc
@@ -64,11 +85,67 @@ func (a *Analysis) rowIndices(fn *ssa.Function) map[ssa.Value]int {
 				continue
 			}
 			if rc := a.rowConstOf(v); rc != nil {
-				if n, had := out[rc.idx]; !had || len(rc.vals) < n {
-					out[rc.idx] = len(rc.vals)
+				rows := len(rc.vals)
+				if rc.str {
+					rows = len(rc.strs)
+				}
+				if n, had := out[rc.idx]; !had || rows < n {
+					out[rc.idx] = rows
 				}
 			}
 		}
 	}
 	return out
+}
+
+// rowString: the string a row constant stands for in the current row assignment.
+func (a *Analysis) rowString(v ssa.Value) (string, bool) {
+	rc := a.rowConstOf(v)
+	if rc == nil || !rc.str {
+		return "", false
+	}
+	k, ok := a.curRow[rc.idx]
+	if !ok || k < 0 || k >= len(rc.strs) {
+		return "", false
+	}
+	return rc.strs[k], true
+}
+
+// varStrRow: is the string value case-variant in the current row assignment?  A φ whose
+// choice is made by a row constant (`if row.ignoreCase { got = ToLower(got) }`) takes the
+// edge that row selects.
+func (a *Analysis) varStrRow(v ssa.Value) bool {
+	ph, ok := v.(*ssa.Phi)
+	if !ok || a.curRow == nil || len(ph.Edges) != 2 {
+		return a.varStr[v]
+	}
+	b := ph.Block()
+	idom := b.Idom()
+	if idom == nil {
+		return a.varStr[v]
+	}
+	iff, ok := idom.Instrs[len(idom.Instrs)-1].(*ssa.If)
+	if !ok {
+		return a.varStr[v]
+	}
+	rc := a.rowConstOf(iff.Cond)
+	if rc == nil || rc.str {
+		return a.varStr[v]
+	}
+	k, ok := a.curRow[rc.idx]
+	if !ok || k < 0 || k >= len(rc.vals) {
+		return a.varStr[v]
+	}
+	taken := idom.Succs[1]
+	if rc.vals[k] != 0 {
+		taken = idom.Succs[0]
+	}
+	// the edge that comes from the taken side
+	for i, pb := range b.Preds {
+		fromTaken := pb == taken || taken.Dominates(pb) || (taken == b && pb == idom)
+		if fromTaken {
+			return a.varStr[ph.Edges[i]]
+		}
+	}
+	return a.varStr[v]
 }
